@@ -17,14 +17,15 @@ def run(chk, prop='C11'):
     recs = core.run_driver('beam', tier=chk.tier, seed=chk.seed, args=dict(prop=prop))
     chk.validate('beam', 'Trace_Beam', 'Trace_Beam.cfg', recs, driver='beam', jobs=14)
     kind = 'souden' if prop == 'C11' else 'gev'
-    good = [r for r in recs if r['kind'] == kind and r['exc'] == '' and r['items']][0]
+    goods = [r for r in recs if r['kind'] == kind and r['exc'] == '' and r['items']]
+    good = goods[0]
 
     def corrupt(r):
         w = r['items'][0]['w']
         w[0], w[1] = w[1], w[0]
         return r
     core.binding_demo(chk, 'bind-' + kind, 'Trace_Beam', 'Trace_Beam.cfg', good, corrupt,
-                      'souden' if prop == 'C11' else 'eigen')
+                      'souden' if prop == 'C11' else 'eigen', candidates=goods[1:])
     chk.assumptions = ['relations are evaluated in 20-bit Flt with slack 96*2^-19 of the scale of the terms (~2e-4); '
                        'deviations below that (e.g. the complex64 cast in get_lcmv_vector) are invisible',
                        'MVDR optimality over ALL distortionless vectors follows from the KKT relation for positive '
